@@ -211,6 +211,38 @@ impl<'ast> Visit<'ast> for LoopFinder {
                 ));
             }
         }
+        // D21: OPT.is_some_and(|X| E)   (X an identifier, E without return/break/continue/?)
+        if e.method == "is_some_and" && e.args.len() == 1 {
+            if let syn::Expr::Closure(c) = &e.args[0] {
+                if c.inputs.len() == 1 && matches!(c.inputs[0], syn::Pat::Ident(_)) {
+                    let mut ef = EscapeFinder::default();
+                    ef.visit_expr(&c.body);
+                    if ef.escapes == 0 {
+                        let call = e.span().byte_range();
+                        let recv = e.receiver.span().byte_range();
+                        let pat = c.inputs[0].span().byte_range();
+                        let body = c.body.span().byte_range();
+                        self.vd.push(format!(
+                            "{{\"rule\":\"D21\",\"call\":[{},{}],\"recv\":[{},{}],\"pat\":[{},{}],\"body\":[{},{}]}}",
+                            call.start, call.end, recv.start, recv.end, pat.start, pat.end, body.start, body.end
+                        ));
+                    }
+                }
+            }
+        }
+        // D20: X.iter().copied() used as a value (an argument): the elements of X in order
+        if e.method == "copied" && e.args.is_empty() {
+            if let syn::Expr::MethodCall(it) = &*e.receiver {
+                if it.method == "iter" && it.args.is_empty() {
+                    let call = e.span().byte_range();
+                    let recv = it.receiver.span().byte_range();
+                    self.vd.push(format!(
+                        "{{\"rule\":\"D20\",\"call\":[{},{}],\"recv\":[{},{}]}}",
+                        call.start, call.end, recv.start, recv.end
+                    ));
+                }
+            }
+        }
         // D7: RECV.map_err(|_| { STMTS; TAIL })   (closure ignores its argument, body has no return/break/continue/?)
         if e.method == "map_err" && e.args.len() == 1 {
             if let syn::Expr::Closure(c) = &e.args[0] {
